@@ -206,6 +206,7 @@ class Env:
             else: nw.q.getters.append(t)
         elif isinstance(nw, _Sleep):
             if nw.q is not None and nw.q.items: self._ready(t)
+            elif nw.q is None and not (nw.t > self.now_us): self._ready(t)      # sleep(0): one trip through the ready queue, as in asyncio
             else:
                 if nw.q is not None: nw.q.getters.append(t)
                 self.timers.append((nw.t, t.seq, t))
